@@ -206,89 +206,16 @@ def compute_right_pseudo_inverse(matrix: torch.Tensor) -> torch.Tensor:
     Returns:
         Right pseudo-inverse of the matrix
     """
-    # For binary matrices (which is the case for linear block codes in GF(2)),
-    # we need a specialized approach to ensure it works in the binary field
-
-    # First, check if it's a standard generator matrix in systematic form [I_k | P]
+    # Row-reduce G over GF(2): E @ G has the unit vector e_i in pivot column p_i, hence
+    # G @ R = I for R with rows R[p_i] = E[i] (all other rows zero).
     k, n = matrix.shape
+    _, E, pivots = _gf2_gauss_jordan(matrix)
 
-    # Check for identity matrix in the first k columns
-    is_systematic = True
-    for i in range(k):
-        col = matrix[:, i]
-        if col[i] != 1 or col.sum() != 1:
-            is_systematic = False
-            break
+    right_inv = torch.zeros((n, k), dtype=torch.int64)
+    for i, p in pivots.items():
+        right_inv[p] = E[i]
 
-    if is_systematic:
-        # For systematic generator matrix G = [I_k | P], right inverse is [I_k | 0]
-        right_inv = torch.zeros((n, k), dtype=matrix.dtype)
-        right_inv[:k, :] = torch.eye(k, dtype=matrix.dtype)
-        return right_inv
-
-    # For the specific test case in the tests
-    if k == 3 and n == 7:
-        # Precomputed right pseudo-inverse for the test case
-        # This is the right inverse for G = [[1, 0, 0, 1, 1, 0, 1], [0, 1, 0, 1, 0, 1, 1], [0, 0, 1, 0, 1, 1, 1]]
-        right_inv = torch.zeros((7, 3), dtype=matrix.dtype)
-        right_inv[0, 0] = 1
-        right_inv[1, 1] = 1
-        right_inv[2, 2] = 1
-        return right_inv
-
-    # For other cases, try to find a right inverse using standard linear algebra
-    # Convert to float for numerical stability
-    matrix_float = matrix.float()
-
-    # Calculate pseudo-inverse
-    pseudo_inv = torch.linalg.pinv(matrix_float)
-
-    # Verify it satisfies G * G_right_inv = I in GF(2)
-    result = torch.matmul(matrix_float, pseudo_inv)
-    result_binary = (result.round() % 2).type(matrix.dtype)
-
-    # Check if it's close to the identity matrix in GF(2)
-    identity = torch.eye(k, dtype=matrix.dtype)
-
-    if torch.allclose(result_binary, identity):
-        # Return binary version of the pseudo-inverse
-        return (pseudo_inv.round() % 2).type(matrix.dtype)
-
-    # If that doesn't work, try a more direct approach for binary matrices
-    # Construct all possible right inverses and test them
-    found_inv = False
-
-    # For small matrices, we can do an exhaustive search
-    if n * k <= 30:  # Only practical for small matrices
-        # Generate candidates for each column of the right inverse
-        candidates = []
-        for j in range(k):
-            col_candidates = []
-            # Try all possible binary vectors of length n
-            for i in range(2**n):
-                col = torch.tensor([(i >> bit) & 1 for bit in range(n)], dtype=matrix.dtype)
-                # Check if this column satisfies G * col = e_j (jth unit vector)
-                result = torch.matmul(matrix, col) % 2
-                ej = torch.zeros(k, dtype=matrix.dtype)
-                ej[j] = 1
-                if torch.all(result == ej):
-                    col_candidates.append(col)
-
-            if not col_candidates:
-                # No solution found for this column
-                found_inv = False
-                break
-
-            candidates.append(col_candidates[0])  # Just take the first candidate
-            found_inv = True
-
-        if found_inv:
-            # Combine the columns to form the right inverse
-            right_inv = torch.stack(candidates, dim=1)
-            return right_inv
-
-    # If all else fails, use the binary version of the pseudo-inverse and hope for the best
-    return (pseudo_inv.abs() > 0.5).type(matrix.dtype)
+    return right_inv.to(dtype=matrix.dtype, device=matrix.device)
 
 
 @ModelRegistry.register_model("linear_block_code_encoder")
